@@ -17,18 +17,18 @@ theorem pres_opNew {c : Cfg} (hP : 0 < c.P) {s : State} (h : InvK c s) : Pres c 
   have t1 := fun t : Tight c s => tight_newBytes hP (m := s.m) t h
   simp only []
   split
-  · exact ⟨inv_push g1, fun t => tight_push (t1 t)⟩
+  · exact ⟨inv_push g1, fun _ t => tight_push (t1 t)⟩
   split
-  · exact ⟨inv_mach (good_plainDrop hP g1), fun t => tight_mach (tight_plainDrop hP (t1 t) g1)⟩
-  · exact ⟨inv_push (good_vecResize hP g1 _), fun t => tight_push (tight_vecResize (t1 t) g1 hP _)⟩
+  · exact ⟨inv_mach (good_plainDrop hP g1), fun _ t => tight_mach (tight_plainDrop hP (t1 t) g1)⟩
+  · exact ⟨inv_push (good_vecResize hP g1 _), fun _ t => tight_push (tight_vecResize (t1 t) g1 hP _)⟩
 
 theorem pres_doNewLocked {c : Cfg} (hP : 0 < c.P) {s : State} {m : Mach} {v : PVec}
     (g : GoodL c.P m.k (⟨v, .rw, false⟩ :: blks s.slots))
-    (t : Tight c s → TightL c.P m.k (⟨v, .rw, false⟩ :: blks s.slots))
+    (t : Tight c s → TightL c.P m.k (⟨v, .rw, false⟩ :: blks s.slots)) (ho : m.oracle = s.m.oracle)
     (src : Option Bytes) (ro rnd : Bool) :
     Pres c s (doNewLocked c s m v src ro rnd) := by
   have gl := good_lockV hP g recNew
-  have tl := fun t0 => tight_lockV hP (t t0) g recNew (Or.inr (Or.inl (by simp)))
+  have tl := fun (hl : Leakless c s.m) t0 => tight_lockV hP (t t0) g recNew (hl.hdp_rw ho (by simp))
   unfold doNewLocked
   by_cases hr : (lockV c m v recNew).2 = true
   · simp only [hr, if_true]
@@ -42,27 +42,27 @@ theorem pres_doNewLocked {c : Cfg} (hP : 0 < c.P) {s : State} {m : Mach} {v : PV
           (.locked, if ro = true then .ro else .rw)) := by
       intro v1 e1 e2 e3 e4
       have g2 := good_setbuf (v' := v1) hP g1 e1 e2 e3 e4
-      have t2 := fun t0 => tight_setvec (b' := ⟨v1, .rw, true⟩) ((tl t0).1 hr) e1 e2
+      have t2 := fun hl t0 => tight_setvec (b' := ⟨v1, .rw, true⟩) ((tl hl t0).1 hr) e1 e2
       cases ro with
       | false =>
         simp only [Bool.false_eq_true, if_false]
-        exact ⟨inv_push g2, fun t0 => tight_push (t2 t0)⟩
+        exact ⟨inv_push g2, fun hl t0 => tight_push (t2 hl t0)⟩
       | true =>
         simp only [if_true]
-        refine ⟨inv_push (good_mprotect hP g2 .r), fun t0 => tight_push ?_⟩
-        exact tight_mprotect hP (t2 t0) (g2.ok _ (List.mem_cons_self)).lenle _ _ _
+        refine ⟨inv_push (good_mprotect hP g2 .r), fun hl t0 => tight_push ?_⟩
+        exact tight_mprotect hP (t2 hl t0) (g2.ok _ (List.mem_cons_self)).lenle _ _ _
     cases src with
     | none => exact key v rfl rfl rfl rfl
     | some b => exact key (writeV v b) rfl rfl rfl (writeV_buf_length _ _)
   · simp only [hr]
     have hr' : (lockV c m v recNew).2 = false := by simpa using hr
-    exact ⟨inv_mach (gl.2 hr'), fun t0 => tight_mach ((tl t0).2 hr')⟩
+    exact ⟨inv_mach (gl.2 hr'), fun hl t0 => tight_mach ((tl hl t0).2 hr')⟩
 
 theorem pres_opNewLocked {c : Cfg} (hP : 0 < c.P) {s : State} (h : InvK c s) (ro rnd : Bool) :
     Pres c s (opNewLocked c s ro rnd) := by
   unfold opNewLocked
   exact pres_doNewLocked hP (good_newBytes hP (m := s.m) h)
-    (fun t => tight_newBytes hP (m := s.m) t h) _ _ _
+    (fun t => tight_newBytes hP (m := s.m) t h) (by simp) _ _ _
 
 theorem pres_doFromSlice {c : Cfg} (hP : 0 < c.P) {s : State} (h : InvK c s) (n : Nat) (ro : Bool) :
     Pres c s (doFromSlice c s n ro) := by
@@ -71,33 +71,34 @@ theorem pres_doFromSlice {c : Cfg} (hP : 0 < c.P) {s : State} (h : InvK c s) (n 
   · split
     · exact pres_same h _
     · exact pres_doNewLocked hP (good_newBytes hP (m := s.m) h)
-        (fun t => tight_newBytes hP (m := s.m) t h) _ _ _
+        (fun t => tight_newBytes hP (m := s.m) t h) (by simp) _ _ _
   · have g0 := good_add_empty hP (k := s.m.k) h .rw false
     exact pres_doNewLocked hP (good_vecResize hP g0 n)
-      (fun t => tight_vecResize (tight_add t _) g0 hP n) _ _ _
+      (fun t => tight_vecResize (tight_add t _) g0 hP n) (by simp) _ _ _
 
 theorem pres_doCloneLocked {c : Cfg} (hP : 0 < c.P) {s : State} (h : InvK c s) (sl : Slot) (ro : Bool) :
     Pres c s (doCloneLocked c s sl ro) := by
   have g0 := good_add_empty hP (k := s.m.k) h .rw false
   have gl := good_lockedResize hP g0 (.locked, .rw) sl.o.v.len
-  have tl := fun t : Tight c s => tight_lockedResize hP (tight_add t _) g0 (.locked, .rw) (fun _ => rfl) sl.o.v.len
+  have tl := fun (hl : Leakless c s.m) (t : Tight c s) =>
+    tight_lockedResize hP (tight_add t _) g0 (.locked, .rw) (fun _ => rfl) hl sl.o.v.len
   unfold doCloneLocked
   cases hn : (lockedResize c s.m PVec.empty (.locked, .rw) sl.o.v.len).2 with
   | none =>
     simp only [hn] at gl tl ⊢
-    exact ⟨inv_mach (good_remove_empty gl rfl), fun t => tight_mach (tight_remove_empty (tl t) rfl)⟩
+    exact ⟨inv_mach (good_remove_empty gl rfl), fun hl t => tight_mach (tight_remove_empty (tl hl t) rfl)⟩
   | some nv =>
     simp only [hn] at gl tl ⊢
     have g2 := good_setbuf (v' := writeV nv sl.o.v.data) hP gl rfl rfl rfl (writeV_buf_length _ _)
-    have t2 := fun t => tight_setvec (b' := ⟨writeV nv sl.o.v.data, .rw, true⟩) (tl t) rfl rfl
+    have t2 := fun hl t => tight_setvec (b' := ⟨writeV nv sl.o.v.data, .rw, true⟩) (tl hl t) rfl rfl
     cases ro with
     | false =>
       simp only [Bool.false_eq_true, if_false]
-      exact ⟨inv_push g2, fun t0 => tight_push (t2 t0)⟩
+      exact ⟨inv_push g2, fun hl t0 => tight_push (t2 hl t0)⟩
     | true =>
       simp only [if_true]
-      refine ⟨inv_push (good_mprotect hP g2 .r), fun t0 => tight_push ?_⟩
-      exact tight_mprotect hP (t2 t0) (g2.ok _ (List.mem_cons_self)).lenle _ _ _
+      refine ⟨inv_push (good_mprotect hP g2 .r), fun hl t0 => tight_push ?_⟩
+      exact tight_mprotect hP (t2 hl t0) (g2.ok _ (List.mem_cons_self)).lenle _ _ _
 
 theorem pres_opClone {c : Cfg} (hP : 0 < c.P) {s : State} (h : InvK c s) (i : Nat) :
     Pres c s (opClone c s i) := by
@@ -107,9 +108,9 @@ theorem pres_opClone {c : Cfg} (hP : 0 < c.P) {s : State} (h : InvK c s) (i : Na
   have gc := good_vecClone hP (m := s.m) h sl.o.v
   have tc := fun t : Tight c s => tight_vecClone (m := s.m) t sl.o.v
   split
-  · exact ⟨inv_push gc, fun t => tight_push (tc t)⟩
-  · exact ⟨inv_push gc, fun t => tight_push (tc t)⟩
-  · refine ⟨inv_push (good_mprotect hP gc .r), fun t => tight_push ?_⟩
+  · exact ⟨inv_push gc, fun _ t => tight_push (tc t)⟩
+  · exact ⟨inv_push gc, fun _ t => tight_push (tc t)⟩
+  · refine ⟨inv_push (good_mprotect hP gc .r), fun _ t => tight_push ?_⟩
     exact tight_mprotect hP (tc t) (gc.ok _ (List.mem_cons_self)).lenle _ _ _
   · split
     · exact pres_same h _
@@ -199,13 +200,13 @@ theorem good_cloneLockedObj {c : Cfg} (hP : 0 < c.P) {m : Mach} {R : List Blk} (
     | true => simpa [blkOf, stPerm, stLocked, PM.perm] using good_mprotect hP g2 .r
 
 theorem tight_cloneLockedObj {c : Cfg} (hP : 0 < c.P) {m : Mach} {R : List Blk} (g : GoodL c.P m.k R)
-    (t : TightL c.P m.k R) (o : Obj) (ro : Bool) :
+    (t : TightL c.P m.k R) (hl : Leakless c m) (o : Obj) (ro : Bool) :
     match (cloneLockedObj c m o ro).2 with
     | none => TightL c.P (cloneLockedObj c m o ro).1.k R
     | some o' => TightL c.P (cloneLockedObj c m o ro).1.k (blkOf o' :: R) := by
   have g0 := good_add_empty hP g .rw false
   have gl := good_lockedResize hP g0 (.locked, .rw) o.v.len
-  have tl := tight_lockedResize hP (tight_add t _) g0 (.locked, .rw) (fun _ => rfl) o.v.len
+  have tl := tight_lockedResize hP (tight_add t _) g0 (.locked, .rw) (fun _ => rfl) hl o.v.len
   unfold cloneLockedObj
   cases hn : (lockedResize c m PVec.empty (.locked, .rw) o.v.len).2 with
   | none =>
@@ -254,7 +255,7 @@ theorem good_cloneObj {c : Cfg} (hP : 0 < c.P) {m : Mach} {R : List Blk} (g : Go
   · trivial
 
 theorem tight_cloneObj {c : Cfg} (hP : 0 < c.P) {m : Mach} {R : List Blk} (g : GoodL c.P m.k R)
-    (t : TightL c.P m.k R) (o : Obj) : CloneSpec R (cloneObj c m o) (TightL c.P) := by
+    (t : TightL c.P m.k R) (hl : Leakless c m) (o : Obj) : CloneSpec R (cloneObj c m o) (TightL c.P) := by
   have gc := good_vecClone hP (m := m) g o.v
   have tc := tight_vecClone (m := m) t o.v
   unfold cloneObj
@@ -267,11 +268,33 @@ theorem tight_cloneObj {c : Cfg} (hP : 0 < c.P) {m : Mach} {R : List Blk} (g : G
     simpa [blkOf, stPerm, stLocked, PM.perm] using this
   · split
     · trivial
-    · exact cloneSpec_of_pair _ (tight_cloneLockedObj hP g t o false)
+    · exact cloneSpec_of_pair _ (tight_cloneLockedObj hP g t hl o false)
   · split
     · trivial
-    · exact cloneSpec_of_pair _ (tight_cloneLockedObj hP g t o true)
+    · exact cloneSpec_of_pair _ (tight_cloneLockedObj hP g t hl o true)
   · trivial
+
+theorem cloneLockedObj_oracle (c : Cfg) (m : Mach) (o : Obj) (ro : Bool) :
+    (cloneLockedObj c m o ro).1.oracle = m.oracle := by
+  unfold cloneLockedObj; simp only []
+  split
+  · simp
+  · simp only []; split <;> simp
+
+theorem cloneObj_oracle {c : Cfg} {m : Mach} {o : Obj} {r : Mach × Option Obj} (h : cloneObj c m o = some r) :
+    r.1.oracle = m.oracle := by
+  unfold cloneObj at h
+  split at h
+  · simp only [Option.some.injEq] at h; rw [← h]; simp
+  · simp only [Option.some.injEq] at h; rw [← h]; simp
+  · simp only [Option.some.injEq] at h; rw [← h]; simp
+  · split at h
+    · simp at h
+    · simp only [Option.some.injEq] at h; rw [← h]; exact cloneLockedObj_oracle ..
+  · split at h
+    · simp at h
+    · simp only [Option.some.injEq] at h; rw [← h]; exact cloneLockedObj_oracle ..
+  · simp at h
 
 /-- the clone is in the type state of the original, and its record is the one of that state -/
 theorem cloneObj_st {c : Cfg} {m m1 : Mach} {o o' : Obj} (h : cloneObj c m o = some (m1, some o')) :
@@ -328,20 +351,20 @@ include hP hs hi hg hrd
 /-- `*d = o` (drop the old value of slot `i`, move `o` in), `o` already built in machine `m` -/
 theorem pres_assign {m : Mach} {sl' : Slot} (hg' : sl'.gone = false)
     (g : GoodL c.P m.k (blkOf sl'.o :: blks s.slots))
-    (t : Tight c s → TightL c.P m.k (blkOf sl'.o :: blks s.slots)) :
+    (t : Leakless c s.m → Tight c s → TightL c.P m.k (blkOf sl'.o :: blks s.slots)) :
     Pres c s (Res.ok, setSlot s (objDrop c m d.o) i sl') := by
   have hperm := blks_mid_live (sl := d) hg l1 l2
   rw [← hs] at hperm
   have pp := perm_head3 _ (blkOf sl'.o) _ _ _ hperm
   have g1 := g.perm pp
   exact ⟨inv_set_live hs hi hg' (good_objDrop hP (o := d.o) g1),
-    fun t0 => tight_set_live hs hi hg' (tight_objDrop hP ((t t0).perm pp) g1 hrd)⟩
+    fun hl t0 => tight_set_live hs hi hg' (tight_objDrop hP ((t hl t0).perm pp) g1 hrd)⟩
 
 /-- the same with a temporary `tmp` that is dropped after the assignment -/
 theorem pres_assign_tmp {m : Mach} {sl' : Slot} {tmp : Obj} (hg' : sl'.gone = false)
     (hrt : ∀ lm pm, tmp.st = .prot lm pm → tmp.rcd = (lm, pm))
     (g : GoodL c.P m.k (blkOf sl'.o :: blkOf tmp :: blks s.slots))
-    (t : Tight c s → TightL c.P m.k (blkOf sl'.o :: blkOf tmp :: blks s.slots)) :
+    (t : Leakless c s.m → Tight c s → TightL c.P m.k (blkOf sl'.o :: blkOf tmp :: blks s.slots)) :
     Pres c s (Res.ok, setSlot s (objDrop c (objDrop c m d.o) tmp) i sl') := by
   have hperm := blks_mid_live (sl := d) hg l1 l2
   rw [← hs] at hperm
@@ -352,8 +375,8 @@ theorem pres_assign_tmp {m : Mach} {sl' : Slot} {tmp : Obj} (hg' : sl'.gone = fa
     exact List.Perm.swap _ _ _
   have g1 := g.perm pp
   have g2 := good_objDrop hP (o := d.o) g1
-  exact ⟨inv_set_live hs hi hg' (good_objDrop hP (o := tmp) g2), fun t0 =>
-    tight_set_live hs hi hg' (tight_objDrop hP (tight_objDrop hP ((t t0).perm pp) g1 hrd) g2 hrt)⟩
+  exact ⟨inv_set_live hs hi hg' (good_objDrop hP (o := tmp) g2), fun hl t0 =>
+    tight_set_live hs hi hg' (tight_objDrop hP (tight_objDrop hP ((t hl t0).perm pp) g1 hrd) g2 hrt)⟩
 
 end assign
 
@@ -373,7 +396,7 @@ theorem pres_opCloneFrom {c : Cfg} (hP : 0 < c.P) {s : State} (h : InvK c s) (hr
     obtain ⟨l1, l2, hs, hi⟩ := slot_split hd
     have hrd := hrec d (mem_split hs) hg
     have gp := good_cloneObj hP (m := s.m) h src.o
-    have tp := fun t0 : Tight c s => tight_cloneObj hP (m := s.m) h t0 src.o
+    have tp := fun (hl : Leakless c s.m) (t0 : Tight c s) => tight_cloneObj hP (m := s.m) h t0 hl src.o
     split
     · -- locked forms: probe clone first
       cases hp : cloneObj c s.m src.o with
@@ -383,24 +406,26 @@ theorem pres_opCloneFrom {c : Cfg} (hP : 0 < c.P) {s : State} (h : InvK c s) (hr
         cases ot with
         | none =>
           simp only [hp, CloneSpec] at gp tp ⊢
-          exact ⟨inv_mach gp, fun t0 => tight_mach (tp t0)⟩
+          exact ⟨inv_mach gp, fun hl t0 => tight_mach (tp hl t0)⟩
         | some tmp =>
           simp only [hp, CloneSpec] at gp tp ⊢
           have hrt := (cloneObj_st hp).2
+          have ho1 : m1.oracle = s.m.oracle := cloneObj_oracle hp
           have gq := good_cloneObj hP (m := m1) gp src.o
-          have tq := fun t0 : Tight c s => tight_cloneObj hP (m := m1) gp (tp t0) src.o
+          have tq := fun (hl : Leakless c s.m) (t0 : Tight c s) =>
+            tight_cloneObj hP (m := m1) gp (tp hl t0) (hl.of_oracle_eq ho1) src.o
           cases hq : cloneObj c m1 src.o with
           | none =>
             simp only []
             exact ⟨inv_mach (good_objDrop hP (o := tmp) gp),
-              fun t0 => tight_mach (tight_objDrop hP (tp t0) gp hrt)⟩
+              fun hl t0 => tight_mach (tight_objDrop hP (tp hl t0) gp hrt)⟩
           | some r2 =>
             obtain ⟨m2, oo⟩ := r2
             cases oo with
             | none =>
               simp only [hq, CloneSpec] at gq tq ⊢
               exact ⟨inv_mach (good_objDrop hP (o := tmp) gq),
-                fun t0 => tight_mach (tight_objDrop hP (tq t0) gq hrt)⟩
+                fun hl t0 => tight_mach (tight_objDrop hP (tq hl t0) gq hrt)⟩
             | some o =>
               simp only [hq, CloneSpec] at gq tq ⊢
               exact pres_assign_tmp hP hs hi hg hrd (sl' := { d with o := o, rnd := src.rnd }) hg hrt gq tq
@@ -411,7 +436,7 @@ theorem pres_opCloneFrom {c : Cfg} (hP : 0 < c.P) {s : State} (h : InvK c s) (hr
         cases oo with
         | none =>
           simp only [hp, CloneSpec] at gp tp ⊢
-          exact ⟨inv_mach gp, fun t0 => tight_mach (tp t0)⟩
+          exact ⟨inv_mach gp, fun hl t0 => tight_mach (tp hl t0)⟩
         | some o =>
           simp only [hp, CloneSpec] at gp tp ⊢
           exact pres_assign hP hs hi hg hrd (sl' := { d with o := o, rnd := src.rnd }) hg gp tp
@@ -426,7 +451,7 @@ theorem pres_opStackLock {c : Cfg} (hP : 0 < c.P) {s : State} (h : InvK c s) : P
     exact pres_doNewLocked hP
       (good_setbuf (v' := writeV (newBytes c s.m).2 (List.replicate c.n 0x5a)) hP g1 rfl rfl rfl
         (writeV_buf_length _ _))
-      (fun t => tight_setvec (tight_newBytes hP (m := s.m) t h) rfl rfl) _ _ _
+      (fun t => tight_setvec (tight_newBytes hP (m := s.m) t h) rfl rfl) (by simp) _ _ _
   · exact pres_same h _
 
 theorem setV_buf_length (v : PVec) (i : Nat) (b : UInt8) : (setV v i b).buf.length = v.buf.length := by
@@ -457,26 +482,31 @@ theorem tight_seqFill {c : Cfg} (hP : 0 < c.P) (b : UInt8) {R : List Blk} (k : N
     · exact good_setbuf hP g1 rfl rfl rfl (setV_buf_length _ _ _)
     · exact tight_setvec (tight_vecResize t g hP _) rfl rfl
 
+theorem seqFill_oracle (c : Cfg) (b : UInt8) (k : Nat) : ∀ r : Mach × PVec, (seqFill c b k r).1.oracle = r.1.oracle := by
+  induction k with
+  | zero => intro r; rfl
+  | succ k ih => intro r; simp only [seqFill]; rw [ih]; simp
+
 theorem pres_doSerdeArrJson {c : Cfg} (hP : 0 < c.P) {s : State} (h : InvK c s) (n : Nat) :
     Pres c s (doSerdeArrJson c s n) := by
   have g := good_newBytes hP (m := s.m) h
   have t := fun t0 : Tight c s => tight_newBytes hP (m := s.m) t0 h
   have gl := good_lockV hP g recNew
-  have tl := fun t0 => tight_lockV hP (t t0) g recNew (Or.inr (Or.inl (by simp)))
+  have tl := fun (hl : Leakless c s.m) t0 => tight_lockV hP (t t0) g recNew (hl.hdp_rw (by simp) (by simp))
   unfold doSerdeArrJson
   by_cases hr : (lockV c (newBytes c s.m).1 (newBytes c s.m).2 recNew).2 = true
   · simp only [hr, if_true]
     have g2 := good_setbuf (v' := writeV (newBytes c s.m).2 (List.replicate (min n c.n) 0x5a)) hP (gl.1 hr)
       rfl rfl rfl (writeV_buf_length _ _)
-    have t2 := fun t0 => tight_setvec
-      (b' := ⟨writeV (newBytes c s.m).2 (List.replicate (min n c.n) 0x5a), .rw, true⟩) ((tl t0).1 hr) rfl rfl
+    have t2 := fun hl t0 => tight_setvec
+      (b' := ⟨writeV (newBytes c s.m).2 (List.replicate (min n c.n) 0x5a), .rw, true⟩) ((tl hl t0).1 hr) rfl rfl
     split
-    · exact ⟨inv_push g2, fun t0 => tight_push (t2 t0)⟩
+    · exact ⟨inv_push g2, fun hl t0 => tight_push (t2 hl t0)⟩
     · exact ⟨inv_mach (good_protDrop hP g2 _ _),
-        fun t0 => tight_mach (tight_protDrop hP (t2 t0) g2 _ _ (fun _ => rfl))⟩
+        fun hl t0 => tight_mach (tight_protDrop hP (t2 hl t0) g2 _ _ (fun _ => rfl))⟩
   · simp only [hr]
     have hr' : (lockV c (newBytes c s.m).1 (newBytes c s.m).2 recNew).2 = false := by simpa using hr
-    exact ⟨inv_mach (gl.2 hr'), fun t0 => tight_mach ((tl t0).2 hr')⟩
+    exact ⟨inv_mach (gl.2 hr'), fun hl t0 => tight_mach ((tl hl t0).2 hr')⟩
 
 theorem pres_opSerde {c : Cfg} (hP : 0 < c.P) {s : State} (h : InvK c s) (json : Bool) (n : Nat) :
     Pres c s (opSerde c s json n) := by
@@ -486,7 +516,7 @@ theorem pres_opSerde {c : Cfg} (hP : 0 < c.P) {s : State} (h : InvK c s) (json :
     · exact pres_doSerdeArrJson hP h n
     · have g0 := good_add_empty hP (k := s.m.k) h .rw false
       exact pres_doNewLocked hP (good_seqFill hP 0x5a n (s.m, PVec.empty) g0)
-        (fun t => tight_seqFill hP 0x5a n (s.m, PVec.empty) g0 (tight_add t _)) _ _ _
+        (fun t => tight_seqFill hP 0x5a n (s.m, PVec.empty) g0 (tight_add t _)) (seqFill_oracle ..) _ _ _
   · exact pres_doFromSlice hP h n false
 
 theorem pres_probe {c : Cfg} {s : State} (h : InvK c s) (i off : Nat) (fore : Bool) :
@@ -551,39 +581,40 @@ theorem invK_stepCore {c : Cfg} (hP : 0 < c.P) {s : State} (h : InvK c s) (hrec 
   case bad => exact h
 
 theorem tight_stepCore {c : Cfg} (hP : 0 < c.P) {s : State} (h : InvK c s) (hrec : RecOK s) (ht : Tight c s)
-    (t : Tok) (hno : c.undo = true ∨ ¬ LocksNoAccess s t) : Tight c (stepCore c s t).2 := by
+    (t : Tok) (hno : c.undo = true ∨ (¬ LocksNoAccess s t ∧ NoFF s.m)) : Tight c (stepCore c s t).2 := by
+  have hl : Leakless c s.m := hno.imp id (fun x => x.2)
   unfold stepCore
   cases hop : t.op <;> simp only []
-  case new => exact (pres_opNew hP h).2 ht
-  case fill b => exact (pres_opFill hP h _ _).2 ht
+  case new => exact (pres_opNew hP h).2 hl ht
+  case fill b => exact (pres_opFill hP h _ _).2 hl ht
   case lock =>
-    refine (pres_opLock hP h _ ?_).2 ht
-    rcases hno with hu | hno
+    refine (pres_opLock hP h _ ?_).2 hl ht
+    rcases hno with hu | ⟨hno, hff⟩
     · exact Or.inl hu
-    · right; intro hl; apply hno
-      exact ⟨hop, hl.2⟩
-  case unlock => exact (pres_opUnlock hP h _).2 ht
-  case ro => exact (pres_opProtect hP h _ _).2 ht
-  case rw => exact (pres_opProtect hP h _ _).2 ht
-  case na => exact (pres_opNa hP h _).2 ht
-  case clone => exact (pres_opClone hP h _).2 ht
-  case resize n b => exact (pres_opResize hP h hrec _ _ _).2 ht
-  case drop => exact (pres_opDrop hP h hrec _).2 ht
+    · right; refine ⟨?_, hff⟩; intro hl'; apply hno
+      exact ⟨hop, hl'.2⟩
+  case unlock => exact (pres_opUnlock hP h _).2 hl ht
+  case ro => exact (pres_opProtect hP h _ _).2 hl ht
+  case rw => exact (pres_opProtect hP h _ _).2 hl ht
+  case na => exact (pres_opNa hP h _).2 hl ht
+  case clone => exact (pres_opClone hP h _).2 hl ht
+  case resize n b => exact (pres_opResize hP h hrec _ _ _).2 hl ht
+  case drop => exact (pres_opDrop hP h hrec _).2 hl ht
   case zeroize => exact tight_opZeroize hP h ht _
-  case clonefrom j => exact (pres_opCloneFrom hP h hrec _ _).2 ht
-  case panicdrop => exact (pres_opDrop hP h hrec _).2 ht
-  case stacklock => exact (pres_opStackLock hP h).2 ht
-  case serde js n => exact (pres_opSerde hP h _ _).2 ht
-  case fsl n => exact (pres_doFromSlice hP h _ _).2 ht
-  case fsro n => exact (pres_doFromSlice hP h _ _).2 ht
-  case newlocked => exact (pres_opNewLocked hP h _ _).2 ht
-  case genlocked => exact (pres_opNewLocked hP h _ _).2 ht
-  case newrolocked => exact (pres_opNewLocked hP h _ _).2 ht
-  case genrolocked => exact (pres_opNewLocked hP h _ _).2 ht
+  case clonefrom j => exact (pres_opCloneFrom hP h hrec _ _).2 hl ht
+  case panicdrop => exact (pres_opDrop hP h hrec _).2 hl ht
+  case stacklock => exact (pres_opStackLock hP h).2 hl ht
+  case serde js n => exact (pres_opSerde hP h _ _).2 hl ht
+  case fsl n => exact (pres_doFromSlice hP h _ _).2 hl ht
+  case fsro n => exact (pres_doFromSlice hP h _ _).2 hl ht
+  case newlocked => exact (pres_opNewLocked hP h _ _).2 hl ht
+  case genlocked => exact (pres_opNewLocked hP h _ _).2 hl ht
+  case newrolocked => exact (pres_opNewLocked hP h _ _).2 hl ht
+  case genrolocked => exact (pres_opNewLocked hP h _ _).2 hl ht
   case failfrom k => exact ht
-  case wprobe off => exact (pres_probe h _ _ true).1.2 ht
-  case rprobe off => exact (pres_probe h _ _ true).2.1.2 ht
-  case gprobe f => exact (pres_probe h _ 0 _).2.2.2 ht
+  case wprobe off => exact (pres_probe h _ _ true).1.2 hl ht
+  case rprobe off => exact (pres_probe h _ _ true).2.1.2 hl ht
+  case gprobe f => exact (pres_probe h _ 0 _).2.2.2 hl ht
   case wrap => exact ht
   case bad => exact ht
 
